@@ -267,9 +267,13 @@ func (s *Swarm) genPlain(rng *vrt.Rand, restartCfg func() *Config) func(r *Runne
 		}
 		if i == 0 && s.Bulk > 0 {
 			s.tag += uint32(s.Bulk)
-			op := &Op{K: "bulk", Key: Bytes("b"), N: s.Bulk, Val: &Val{Len: rng.Range(0, 12), Tag: 1<<24 + s.tag}, Dt: s.dt(rng)}
+			prefix := "b"
+			if rng.Chance(0.3) {
+				prefix = "b" + strings.Repeat("p", rng.Range(60, 120)) // long keys: a few hundred hint entries then span several blocks
+			}
+			op := &Op{K: "bulk", Key: Bytes(prefix), N: s.Bulk, Val: &Val{Len: rng.Range(0, 12), Tag: 1<<24 + s.tag}, Dt: s.dt(rng)}
 			for j := 0; j < 5; j++ { // later operations also aim at some of the loaded keys
-				s.Keys = append(s.Keys, []byte(fmt.Sprintf("b%04d", rng.Intn(s.Bulk))))
+				s.Keys = append(s.Keys, []byte(fmt.Sprintf("%s%04d", prefix, rng.Intn(s.Bulk))))
 			}
 			prev = nil
 			return op
